@@ -52,16 +52,28 @@ def gen_topology(rng, level):
     kind = rng.choice(["direct", "pulse", "pulse", "mech_coil", "mech_coil", "mech", "mech"])
     devices = []
     trough_ej = "pulse"
-    if level >= 1 and rng.random() < 0.15:
+    gottlieb = level >= 1 and rng.random() < 0.14
+    if gottlieb:
+        # entrance-counted trough whose last ball rests on the entrance switch: capacity == balls installed
+        balls = slots = rng.randint(2, 4)
+        kind = rng.choice(["direct", "direct", "pulse", "mech_coil"])
+    elif level >= 1 and rng.random() < 0.15:
         trough_ej = "enable"
     has_drain = level >= 1 and rng.random() < 0.25
     trough_tags = "trough, home" if has_drain else "trough, home, drain"
     first_target = "playfield" if kind == "direct" else "bd_plunger"
     t = timing()
-    devices.append(_dev("bd_trough", slots, trough_ej, first_target, trough_tags, initial=balls, **t))
+    if gottlieb:
+        devices.append(_dev("bd_trough", slots, "pulse", first_target, trough_tags, initial=balls, counter="entrance",
+                            settle_time_ms=rng.choice([1000, 2000, 2000, 3000]),
+                            full_timeout_ms=rng.choice([300, 500, 500, 1000, 3000]), **t))
+    else:
+        devices.append(_dev("bd_trough", slots, trough_ej, first_target, trough_tags, initial=balls, **t))
     if kind != "direct":
         t = timing()
-        devices.append(_dev("bd_plunger", 1, kind, "playfield", "", **t))
+        # a coil launcher lane may hold two balls (it can then be fed while it is still ejecting to the playfield)
+        lane_slots = 2 if kind == "pulse" and rng.random() < 0.45 else 1
+        devices.append(_dev("bd_plunger", lane_slots, kind, "playfield", "", **t))
     if has_drain:
         t = timing()
         devices.append(_dev("bd_drain", 1, "pulse", "bd_trough", "drain", **t))
@@ -99,7 +111,8 @@ def gen_topology(rng, level):
         logic["ball_hold"] = {"device": "bd_lock", "balls_to_hold": rng.randint(1, lock["slots"])}
     topo = {"balls": balls, "source": "bd_trough" if kind == "direct" else "bd_plunger",
             "balls_per_game": rng.randint(1, 3), "devices": devices, "logic": logic,
-            "kind": kind + ("+drain" if has_drain else "") + ("+lock" + (lock["counter"][0] if lock["ejector"] != "hold" else "h") if lock else "") +
+            "kind": ("gt_" if gottlieb else "") + kind + ("2" if kind == "pulse" and lane_slots == 2 else "") +
+            ("+drain" if has_drain else "") + ("+lock" + (lock["counter"][0] if lock["ejector"] != "hold" else "h") if lock else "") +
             ("+en" if trough_ej == "enable" else "") + ("+vuk" if vuk else "")}
     return topo
 
@@ -111,8 +124,32 @@ def gen_ops(rng, topo, n_ops, rests):
     names = [d["name"] for d in topo["devices"]]
     has_lock = "bd_lock" in names
     logic = topo.get("logic", {})
-    ops = [["wait", rng.choice([1.0, 3.0])], ["start"]]
-    kinds = ["drain"] * 6 + ["pf"] * 2 + ["wait"] * 2 + ["start"]
+    trough = topo["devices"][0]
+    gottlieb = bool(trough.get("full_timeout_ms"))
+    slow_lane = any(d["name"] == "bd_plunger" and d["ejector"] in ("mech", "mech_coil") for d in topo["devices"])
+
+    def gt_fill():
+        """Two balls out, then two drains spaced around the settle delay of the entrance counter (the second one
+        fills the trough and rests on the entrance switch) and a request right after it."""
+        w = 45.0 if slow_lane else 12.0
+        settle = trough.get("settle_time_ms", 2000) / 1000.0
+        tr = rng.choice([0.2, 0.5])
+        full = trough.get("full_timeout_ms", 500) / 1000.0
+        after = rng.choice([0.05, 0.15, 0.3])       # the request follows the filling ball's arrival by this much
+        lo, hi = max(0.1, settle - full + 0.05), settle - after - 0.05
+        if rng.random() < 0.7 and hi > lo:
+            gap = round(rng.uniform(lo, hi), 2)     # previous settle timer expires while the filling ball still waits
+        else:
+            gap = round(settle * rng.uniform(0.3, 1.3), 2)
+        return [["ev", "ev_add_ball", 0.5], ["ev", "ev_add_ball", w], ["wait", w],
+                ["drain", rng.choice([0.2, 4.0]), tr], ["drain", gap, tr],
+                ["ev", "ev_add_ball", round(tr + after, 2)], ["wait", 9.0]]
+
+    ops = [["wait", rng.choice([1.0, 3.0])]]
+    if gottlieb and rng.random() < 0.6:
+        ops += gt_fill()
+    ops.append(["start"])
+    kinds = ["drain"] * 6 + ["pf"] * 2 + ["wait"] * 2 + ["start"] + ["ev:ev_add_ball"]
     if has_lock:
         kinds += ["lock"] * 4
     if "bd_vuk" in names:
@@ -125,7 +162,9 @@ def gen_ops(rng, topo, n_ops, rests):
         kinds += ["ev:ev_save_enable"]
     if "ball_hold" in logic:
         kinds += ["ev:ev_release_one", "ev:ev_release_all"]
-    bursts = []
+    bursts = ["double_request"]     # a second (third) manual request while the first eject is still running
+    if gottlieb:
+        bursts.append("gt_fill")
     if "multiball" in logic and "ball_save" in logic:
         bursts.append("mb_save")        # several balls in play, ball save active, drains close together
     if "bd_plunger" in names:
@@ -141,6 +180,12 @@ def gen_ops(rng, topo, n_ops, rests):
                 ops.append(["ev", "ev_save_enable", 0.2])
                 for _ in range(rng.randint(2, 3)):
                     ops.append(["drain", rng.choice([0.03, 0.2, 0.6, 1.5, 4.0])])
+            elif b == "double_request":
+                ops.append(["ev", "ev_add_ball", rng.choice(DTS)])
+                for _ in range(rng.randint(1, 2)):
+                    ops.append(["ev", "ev_add_ball", rng.choice([0.3, 1.5, 3.0, 5.0])])
+            elif b == "gt_fill":
+                ops += gt_fill()
             else:
                 ops.append(["ev", rng.choice(["ev_req_plunger", "ev_mb_add", "ev_mb_start"]), rng.choice(DTS)])
                 ops.append(["lane", rng.choice([0.2, 0.6, 1.5])])
@@ -183,6 +228,11 @@ def gen_phys(rng, topo, fault_level):
         phys["plunge_delay"] = [5.0, 40.0]
     if fault_level > 0:
         for d in topo["devices"]:
+            if d["name"] == "bd_plunger" and d["slots"] == 2 and rng.random() < 0.6:
+                # the launcher's first kicks are too weak / the ball falls back
+                phys["faults"][d["name"]] = [rng.choice(["weak", "back_early"]) for _ in range(rng.randint(1, 2))] + \
+                    [rng.choice(["ok", "ok", "weak", "back_early"]) for _ in range(rng.randint(1, 4))]
+                continue
             if rng.random() < 0.6:
                 n = rng.randint(1, 6)
                 seq = []
@@ -540,7 +590,7 @@ def run_world_case(case, horizon):
                 elif k == "drain":
                     vm.advance(float(op[1]))
                     drain_to = "bd_drain" if "bd_drain" in world.devs else "bd_trough"
-                    world.move_loose_ball(drain_to, kind="drains")
+                    world.move_loose_ball(drain_to, transit=float(op[2]) if len(op) > 2 else None, kind="drains")
                 elif k == "lock":
                     vm.advance(float(op[1]))
                     if "bd_lock" in world.devs:
